@@ -7,9 +7,9 @@ def c(a, b, tier="quick"):
 KANI = [{
     "mode": "in_crate", "repo_crate": "gix-object",
     "harness_prefix": "tree::editor::verif_kani::kani_proofs::",
-    "harnesses": [c(1, 1), c(1, 2), c(2, 1), c(2, 2), c(3, 2), c(2, 3), c(3, 3), c(4, 4), c(4, 3), c(6, 5, "thorough"), c(6, 6, "thorough")] + [
+    "harnesses": [c(1, 1), c(1, 2), c(2, 1), c(2, 2), c(3, 2), c(2, 3), c(3, 3), c(4, 4), c(4, 3), c(6, 5), c(6, 6), c(8, 7), c(8, 8), c(12, 11, "thorough")] + [
         H("bisect_%d" % n, ["C03"], "bounded", "trees of %d entries (names of 1-2 bytes, any u16 mode) sorted by the real order x any probe name x file/dir" % n,
-          tier="quick" if n <= 3 else "thorough", timeout=1800, functions=["gix_object::TreeRef::bisect_entry"]) for n in (1, 2, 3, 4)] + [
+          tier="quick", timeout=1800, functions=["gix_object::TreeRef::bisect_entry"]) for n in (1, 2, 3, 4)] + [H("bisect_%d" % n, ["C03"], "bounded", "trees of %d entries (names of 1-2 bytes, any u16 mode) sorted by the real order x any probe name x file/dir" % n, tier=("quick" if n == 5 else "thorough"), timeout=3600, functions=["gix_object::TreeRef::bisect_entry"]) for n in (5, 6)] + [
         H("mode_roundtrip", ["C01", "C03"], "full", "every u16 mode", functions=["gix_object::tree::EntryMode::as_bytes", "<gix_object::tree::EntryMode as TryFrom<&[u8]>>::try_from", "gix_object::tree::ref_iter::mode_from_decimal", "gix_object::tree::EntryMode::kind", "gix_object::tree::EntryMode::is_tree"]),
         H("tree_size_1", ["C01"], "bounded", "trees of 1 entry (name 1-2 bytes, any u16 mode, any first id byte): size()==bytes written, TreeRefIter decodes it back", tier="off", functions=["<gix_object::TreeRef as WriteTo>::write_to", "<gix_object::TreeRef as WriteTo>::size", "<gix_object::Tree as WriteTo>::write_to", "<gix_object::Tree as WriteTo>::size", "gix_object::tree::ref_iter::decode::fast_entry"]),
         H("tree_size_2", ["C01"], "bounded", "trees of 2 sorted entries", tier="off", timeout=1800, functions=["<gix_object::TreeRef as WriteTo>::write_to", "<gix_object::TreeRef as WriteTo>::size", "<gix_object::Tree as WriteTo>::write_to", "<gix_object::Tree as WriteTo>::size", "gix_object::tree::ref_iter::decode::fast_entry"]),
